@@ -46,6 +46,8 @@ class CallMixin:
                 # dict.__setitem__(obj, k, v)
                 return self.call_container_method(args[0], attr, args[1:], kwargs, st, node, dictpart=True)
             return self.call_user('%s.%s' % (cname, attr), args[0] if args else None, args[1:], kwargs, st, node)
+        if how == 'extfunc':
+            return self.call_external(fv.a[0], args, kwargs, st, node)
         if how == 'modfunc':
             return self.call_external('%s.%s' % (fv.a[0], fv.a[1]), args, kwargs, st, node)
         raise Unsupported('call of %r' % (fv,))
@@ -65,10 +67,17 @@ class CallMixin:
 
     def bind_args(self, fnode, recv, args, kwargs, st):
         a = fnode.args
-        if a.vararg or a.kwarg:
-            raise Unsupported('*args/**kwargs in callee %s' % fnode.name)
         names = [x.arg for x in a.posonlyargs + a.args]
         bound = {}
+        if a.vararg:
+            if len(args) + (1 if recv is not None else 0) > len(names):
+                raise Unsupported('extra positional arguments into *%s' % a.vararg.arg)
+            bound[a.vararg.arg] = STuple([])
+        if a.kwarg:
+            extra = [k for k in kwargs if k not in names and k not in [x.arg for x in a.kwonlyargs]]
+            if extra:
+                raise Unsupported('extra keyword arguments into **%s' % a.kwarg.arg)
+            bound[a.kwarg.arg] = SVal(st.fresh.const('empty_kwargs', Val))
         pos = list(args)
         if recv is not None:
             pos = [recv] + pos
@@ -155,6 +164,9 @@ class CallMixin:
     def apply_contract(self, con, bound, st, node=None):
         """modular call: assert requires, havoc modifies, assume ensures (normal and exceptional)"""
         self.called.add(con.qualname)
+        if self.hooks is not None and hasattr(self.hooks, 'on_contract_call'):
+            st = st.copy()
+            self.hooks.on_contract_call(self, con, bound, st, node)
         c0 = Ctx(self, st, st, bound)
         for label, b in con.requires(c0):
             self.oblige('pre-call', '%s: requires %s' % (con.qualname, label), st, b, node)
@@ -212,7 +224,20 @@ class CallMixin:
         n = cv.name
         if exc_isa(n, 'BaseException') or n in self.exc_classes:
             return [(SExc(n, args[0] if args else None), st)]
-        con = self.contracts.get(n + '.__init__') or self.contracts.get(n)
+        dc, _ini = self.src.resolve_method(n, '__init__')
+        iname = '%s.__init__' % (dc or n)
+        con = self.contracts.get(iname) or self.contracts.get(n)
+        if con is not None and con.inline:
+            cls = self.classes.get(n)
+            if cls is None:
+                raise Inapplicable('class %s' % n)
+            s0 = st.copy()
+            obj = self.new_ref(s0, cls)
+            s0.held['fresh'] = tuple(s0.held.get('fresh', ())) + (str(z3.simplify(obj.t)),)
+            outs = []
+            for v, s in self.call_user(iname, obj, args, kwargs, s0, node):
+                outs.append((v if is_exc(v) else obj, s))
+            return outs
         if con is not None:
             fnode = self.src.func(n + '.__init__')
             cls = self.classes.get(n)
@@ -518,9 +543,11 @@ class CallMixin:
         return out
 
     def dm_items(self, d, args, kwargs, st, node):
+        self.on_field_access(st, d, 'dom', 'read', node)
         return [(SIterView('items', d), st)]
 
     def dm_keys(self, d, args, kwargs, st, node):
+        self.on_field_access(st, d, 'dom', 'read', node)
         return [(SIterView('keys', d), st)]
 
     def dm_values(self, d, args, kwargs, st, node):
@@ -528,9 +555,11 @@ class CallMixin:
 
     def dm_eq(self, d, args, kwargs, st, node):
         o = args[0]
+        self.on_field_access(st, d, 'val', 'read', node)
+        if isinstance(o, SVal):
+            return [(SBool(self.fresh(st, 'opaque_eq', z3.BoolSort())), st)]
         if not (isinstance(o, SRef) and o.cls.has_dict()):
             raise Unsupported('dict == %r' % (o,))
-        self.on_field_access(st, d, 'val', 'read', node)
         k = z3.Const(st.fresh.name('k'), d.cls.k.sort())
         dd, od = self.hload(st, d, 'dom'), self.hload(st, o, 'dom')
         dv, ov = self.hload(st, d, 'val'), self.hload(st, o, 'val')
